@@ -222,8 +222,13 @@ def tol_for(method, sg_class):
 # ------------------------------------------------------------------------------------------------
 # building inputs and calling the library
 # ------------------------------------------------------------------------------------------------
-def make_rdms(vectors, tag='a'):
+def make_rdms(vectors, tag='a', dtype=float, scale=None):
+    """dtype: float | 'int64' | 'int32' (an RDMs object keeps the dtype of a 2-D input);
+    scale: the vectors multiplied by a positive factor"""
     v = np.array(vectors, dtype=float)
+    if scale is not None:
+        v = v * scale
+    v = v.astype(dtype)
     n_rdm, L = v.shape
     nc = _n_from_len(L)
     return RDMs(v.copy(), dissimilarity_measure='test measure',
@@ -232,11 +237,14 @@ def make_rdms(vectors, tag='a'):
                 pattern_descriptors={'cond': [f'c{i}' for i in range(nc)]})
 
 
-def make_arg(vectors, flavour, tag):
+def make_arg(vectors, flavour, tag, dtype=float, scale=None):
     """flavour: 'rdms' | 'ndarray' (2-D) | 'ndarray1d' (only for a single RDM)"""
     if flavour == 'rdms':
-        return make_rdms(vectors, tag)
+        return make_rdms(vectors, tag, dtype, scale)
     v = np.array(vectors, dtype=float)
+    if scale is not None:
+        v = v * scale
+    v = v.astype(dtype)
     if flavour == 'ndarray1d' and v.shape[0] == 1:
         return v[0].copy()
     return v.copy()
@@ -259,17 +267,17 @@ def expected_matrix(method, res, V, nc):
     return [[value_from_stat(method, st, V, nc) for st in row] for row in res]
 
 
-def _close(got, exp, tol, method, scale=1.0):
+def _close(got, exp, tol, method, scale=1.0, relative=False):
     if isinstance(exp, Fraction):
         if method == 'tau-a':
             return got == exp.numerator / exp.denominator
         return abs(got - float(exp)) <= tol
     if method in BURES_METHODS:
-        return abs(got - exp) <= tol * max(1.0, scale)
+        return abs(got - exp) <= tol * (scale if relative else max(1.0, scale))
     return abs(got - exp) <= tol
 
 
-def compare_result(method, got, exp, tol, scales=None):
+def compare_result(method, got, exp, tol, scales=None, relative=False):
     """-> None | (kind, detail) with kind in shape / transposed / value / nonfinite"""
     n1, n2 = len(exp), len(exp[0])
     got = np.asarray(got)
@@ -284,7 +292,7 @@ def compare_result(method, got, exp, tol, scales=None):
                 continue
             g = float(got[i, j])
             sc = scales[i][j] if scales is not None else 1.0
-            if not math.isfinite(g) or not _close(g, exp[i][j], tol, method, sc):
+            if not math.isfinite(g) or not _close(g, exp[i][j], tol, method, sc, relative):
                 bad.append((i, j, g, float(exp[i][j])))
     if not bad:
         return None
@@ -378,6 +386,38 @@ def check_value_record(rec, vcat, nc, variant=0):
                     {**case0, 'flavour': fl, 'entry': entry, 'detail': detail,
                      'expected': [[None if x is None else float(x) for x in row] for row in exp],
                      'got': np.asarray(got, dtype=float).tolist()}))
+    # 2b. storage dtype and magnitude must not matter (rotating with the vector index):
+    #     even index: integer-typed input (int64 / int32 on both sides, mixed int / float) - the vectors are
+    #       integers, the definition does not depend on how they are stored;
+    #     odd index: one or both stacks multiplied by a positive factor - every similarity is invariant,
+    #       the squared Bures metric is  (sa*trA + sb*trB - 2*sqrt(sa*sb)*F) ; relative tolerance
+    if variant % 2 == 0:
+        da, db = (('int64', 'int64'), ('int32', 'int32'), ('int64', float), (float, 'int32'))[(variant // 2) % 4]
+        kindf, sa, sb, exp2, scales2 = 'int-dtype', None, None, exp, scales
+    else:
+        sa, sb = ((1e-6, 1e-6), (1e-9, 1.0), (1e6, 1e-6), (1e-9, 1e-9))[(variant // 2) % 4]
+        da = db = float
+        kindf, exp2, scales2 = 'scaled-input', exp, scales
+        if m == 'bures_metric':
+            exp2 = [[None if (st['aa'] == 0 or st['bb'] == 0) else
+                     (sa * st['aa'] + sb * st['bb'] - 2.0 * math.sqrt(sa * sb * st['ab'])) / (nc * nc)
+                     for st in row] for row in rec['res']]
+            scales2 = [[(sa * st['aa'] + sb * st['bb']) / (nc * nc) for st in row]
+                       for row in rec['res']]
+    cont = ('ndarray', 'rdms')[(variant // 8) % 2]
+    neval += 1
+    case2 = {**case0, 'container': cont, 'dtype_a': str(da), 'dtype_b': str(db), 'scale_a': sa, 'scale_b': sb}
+    try:
+        got2 = call(m, make_arg(a, cont, 'a', da, sa), make_arg(b, cont, 'b', db, sb), sigma, 'compare')
+    except Exception as e:
+        out.append((f'{base}/{kindf}/raises/{type(e).__name__}',
+                    f'{m}: the call raises on {kindf} input: {e!r}'[:300], case2))
+    else:
+        r = compare_result(m, got2, exp2, tol, scales2, relative=(m == 'bures_metric' and kindf == 'scaled-input'))
+        if r is not None:
+            out.append((f'{base}/{kindf}/{r[0]}', f'{m} on {kindf} input differs from its definition: {r[1]}',
+                        {**case2, 'got': np.asarray(got2, dtype=float).tolist(),
+                         'expected': [[None if x is None else float(x) for x in row] for row in exp2]}))
     # 3. clause h: ndarray and RDMs input give the same answer; dispatcher = direct function
     ref = results.get((FLAVOURS[0], 'compare'))
     if ref is not None:
